@@ -333,6 +333,9 @@ class ArrayLiteral(Expression):
         return isinstance(other, ArrayLiteral) and self.items == other.items
 
     def __str__(self) -> str:
+        if len(self.items) == 1:
+            # Without its comma a single item is not an array.
+            return f"{self.items[0]},"
         return ", ".join(str(e) for e in self.items)
 
     def __hash__(self) -> int:
